@@ -253,6 +253,60 @@ func runC19(c *core.Ctx) {
 	if nLoops == 0 {
 		c.Undecided("C19/each-entry-matched-once", "baseProcessor.checkHeaderBodyCorrelation", ck.Pos(), "no loop with an index lookup guarding an error exit: the matching idiom is not the one this rule decides")
 	}
+	// the index the compared entry is taken from keeps EVERY header entry: an insertion that overwrites
+	// the entry stored under the same hash drops an earlier entry with that hash, whose declared
+	// fields are then never compared with anything
+	{
+		// maps whose lookup result provides the header fields that are compared
+		provides := map[ssa.Value]bool{}
+		core.Instrs(ck, func(in ssa.Instruction) {
+			ifi, ok := in.(*ssa.If)
+			if !ok {
+				return
+			}
+			for x := range core.BackwardReachPure(ifi.Cond) {
+				if _, f := core.FieldLoad(x); f != nil && isMBHField(f) {
+					for y := range core.BackwardReachPure(x) {
+						if lk, isLk := y.(*ssa.Lookup); isLk {
+							if _, isMap := lk.X.Type().Underlying().(*types.Map); isMap {
+								provides[lk.X] = true
+							}
+						}
+					}
+				}
+			}
+		})
+		n := 0
+		core.Instrs(ck, func(in ssa.Instruction) {
+			mu, ok := in.(*ssa.MapUpdate)
+			if !ok || !provides[mu.Map] {
+				return
+			}
+			// only insertions of header entries (value derived from the header parameter)
+			fromHeader := false
+			for x := range core.BackwardReachPure(mu.Value) {
+				if x == ssa.Value(ck.Params[1]) {
+					fromHeader = true
+				}
+			}
+			if !fromHeader {
+				return
+			}
+			n++
+			accum := false
+			for x := range core.BackwardReachPure(mu.Value) {
+				if lk, isLk := x.(*ssa.Lookup); isLk && lk.X == mu.Map {
+					accum = true
+				}
+			}
+			c.Check(accum, "C19/each-entry-matched-once", fmt.Sprintf("baseProcessor.checkHeaderBodyCorrelation/index-keeps-every-entry#%d", n), mu.Pos(),
+				"a header entry is added to what is already stored under its hash",
+				"a header entry is stored under its hash by overwriting what is there: of two entries with the same hash only the last is kept, and the declared type, shards and tx count of the other are never compared with the body")
+		})
+		if n == 0 && len(provides) > 0 {
+			c.Undecided("C19/each-entry-matched-once", "baseProcessor.checkHeaderBodyCorrelation/index-keeps-every-entry", ck.Pos(), "no insertion of header entries into the index the compared entry is taken from")
+		}
+	}
 }
 
 type atomVal struct {
